@@ -119,11 +119,11 @@ defaults {
 }
 "/p" {
   max_body %(mb)d
-%(mh)s%(fwd)s  pull { path "/pull/p" }
+%(match)s%(mh)s%(fwd)s  pull { path "/pull/p" }
 }
 "/d" {
   max_body %(mb)d
-%(mh)s%(fwd)s  deliver "%%TARGET%%/hook" {
+%(match)s%(mh)s%(fwd)s  deliver "%%TARGET%%/hook" {
     retry exponential max 3 base 10ms cap 20ms jitter 0
     timeout 5s
   }
@@ -152,13 +152,20 @@ def make_cases(rng, tier):
         fwd_txt = ""
         if fwd:
             fwd_txt = '  auth forward "%AUTH%" {\n' + "".join('    copy_headers "%s"\n' % n for n in fwd["copy_headers"]) + "  }\n"
-        text = CONFIG % dict(mb=mb, mh=("  max_headers %d\n" % mh) if mh else "", fwd=fwd_txt)
+        # every fourth configuration selects its routes by a query matcher as well (the resolver then looks at the query of every request):
+        # what the resolver does to find the route must not touch the body - also not a form-encoded one
+        qmatch = ci % 4 == 1
+        query = rng.choice(["?src=hooks", "?src=a&x=%2F", "?x=1&src="]) if qmatch else ""
+        text = CONFIG % dict(mb=mb, mh=("  max_headers %d\n" % mh) if mh else "", fwd=fwd_txt,
+                             match='  match {\n    query_exists "src"\n  }\n' if qmatch else "")
         backend = "sqlite" if ci % 2 == 0 else "memory"
         reqs = []
         for k in range(nreq):
             route = "/p" if k % 3 != 2 else "/d"
             body, how = gen_body(rng, mb, ["0", "1", "max-1", "max", "max+1"][k] if k < 5 else None)
             hs = gen_headers(rng)
+            if rng.random() < (0.5 if qmatch else 0.15):
+                hs.append((rng.choice(["Content-Type", "content-type"]), rng.choice(["application/x-www-form-urlencoded", "application/x-www-form-urlencoded; charset=utf-8"])))
             seq = "r%d" % k
             if mh and rng.random() < 0.5:
                 # steer the stored size to the limit: pad with a filler header so that the size lands on mh-1, mh, mh+1
@@ -175,7 +182,7 @@ def make_cases(rng, tier):
                 if fill >= 0 and not fwd:
                     hs.append(("x-fill", "f" * fill))
             reqs.append(dict(route=route, headers=[[n, b64(v.encode())] for n, v in hs] + [["X-Verif-Seq", b64(seq.encode())]],
-                             body_b64=b64(body), seq=seq, how=how, body=body, wire=hs + [("X-Verif-Seq", seq)], chunked=False))
+                             body_b64=b64(body), seq=seq, how=how, body=body, wire=hs + [("X-Verif-Seq", seq)], chunked=False, query=query))
         # the same bodies streamed without a Content-Length (Transfer-Encoding: chunked) around the limit: what is acknowledged is what
         # was sent, whole; a body over max_body is refused whatever its framing
         for k, kind in enumerate(["max-1", "max", "max+1", "max+1", "rand"]):
@@ -184,7 +191,7 @@ def make_cases(rng, tier):
                 body = body * 3 + b"tail"
             seq = "c%d" % k
             reqs.append(dict(route="/p" if k % 2 == 0 else "/d", headers=[["X-Verif-Seq", b64(seq.encode())]], body_b64=b64(body), seq=seq, how="chunked-" + how,
-                             body=body, wire=[("X-Verif-Seq", seq)], chunked=True))
+                             body=body, wire=[("X-Verif-Seq", seq)], chunked=True, query=query))
         pubs = []
         for k in range(6 if tier == "quick" else 12):
             route = "/p" if k % 2 == 0 else "/d"
@@ -291,7 +298,7 @@ def main(ctx, replay):
         c["detour"] = ["", "cancel-resume", "", "cancel-requeue", "", "ids"][k % 6]
     payload = {"dir": os.path.join(ctx.scratch, "fid"), "par": 16,
                "cases": [{k: c[k] for k in ("config", "backend", "forward", "pull_path", "reopen")} | {"detour": c.get("detour", "")} |
-                         {"requests": [{k: r[k] for k in ("route", "headers", "body_b64", "seq", "chunked")} for r in c["requests"]],
+                         {"requests": [{k: r[k] for k in ("route", "headers", "body_b64", "seq", "chunked", "query")} for r in c["requests"]],
                           "publish": [{k: p[k] for k in ("body", "seq")} for p in c["publish"]]} for c in cases]}
     rc, out, err = C.harness_run(info["hbin"], ["fidelity"], payload, timeout=3000)
     if rc != 0:
